@@ -173,15 +173,47 @@ def one_run(ctx, g, sc, pr, lib, path, spec, form, pool_factory, fault, ref, see
             if rec.armed_file and os.path.exists(rec.armed_file):
                 os.unlink(rec.armed_file)
             ctx.count("follow-up-on-same-pool:" + ("multi" if hasattr(inner_pool, "terminate") else "serial"))
+            ref_here, replaced = ref, False
+            if path and fault[1] > 1 and (fault[1] + len(fault[0]) + g["index"]) % 2 == 0:
+                # between the failed call and the next one the USER replaces the library under the same name (the same rows, the
+                # period column in another valid unit): whatever the failed call had read must not survive.  Reference: a fresh
+                # TheJoker on a copy of the new file under a name nobody has read from.
+                import astropy.units as u
+                import thejoker as tj
+                lib2 = tj.JokerSamples(poly_trend=pr.p, n_offsets=pr.q)
+                for nm in lib.par_names:
+                    lib2[nm] = lib[nm].to(u.yr if lib[nm].unit == u.day else u.day) if nm == "P" else lib[nm]
+                lib2.write(path, overwrite=True)
+                replaced = True
+                ctx.count("follow-up after the user replaced the library file under the same name")
+                ctx.count("follow-up after the user replaced the library file under the same name:" + spec["entry"])
+            ll_follow = None
+            if replaced:
+                # first the plain likelihood of the replaced library (the quantity every sampler is built on) ...
+                ll_follow = np.asarray(j.marginal_ln_likelihood(pr.data, path))
             out2 = hl.do_call(j, pr, spec, lib=lib, path=path)
-            d = hl.out_diff(out2, ref)
+            if replaced:
+                # the reference is computed AFTER the follow-up call: no other call may run between the failed call and it
+                fresh = os.path.join(os.path.dirname(path), "fresh_name_%d.hdf5" % ctx.counters["follow-up-calls"])
+                lib2.write(fresh, overwrite=True)
+                jr = pr.joker(rng=np.random.default_rng(seed2), pool=hl.serial_pool(), tempfile_path=sc.jokerdir)
+                ll_fresh = np.asarray(jr.marginal_ln_likelihood(pr.data, fresh))
+                jr.rng = np.random.default_rng(seed2)
+                ref_here = hl.do_call(jr, pr, spec, lib=lib2, path=fresh)
+                os.unlink(fresh)
+                lib.write(path, overwrite=True)        # the original library again, for the runs that follow
+            d = hl.out_diff(out2, ref_here)
+            if replaced and d is None:
+                d = hl.arrays_diff({"array": ("", ll_follow)}, {"array": ("", ll_fresh)})
+                if d is not None:
+                    d = "marginal_ln_likelihood of the replaced library: " + d
             err = None
         except Exception as e:      # noqa
             d, err, out2 = f"follow-up call raised {type(e).__name__}: {e}"[:300], e, None
         ctx.evaluated(rel_d, (spec["entry"], form, tname))
         ctx.count("follow-up-calls")
         if d is not None:
-            ctx.violation(rel_d, g, inp, hl.out_brief(out2) if out2 else d, hl.out_brief(ref),
+            ctx.violation(rel_d, g, dict(inp, library_file_replaced_by_the_user_before_the_follow_up=replaced), hl.out_brief(out2) if out2 else d, hl.out_brief(ref_here),
                           "after a failed call the same TheJoker must return exactly what a fresh TheJoker returns for the "
                           "same seeded call: " + d, tags=tags)
         if sc.listing() != before:
@@ -329,6 +361,10 @@ def post(ctx):
     ctx.require("faults raised while a temp file existed", c["faults-while-temp-file-exists"], 15)
     ctx.require("runs on a user file", c["runs-with-user-file"], 10)
     ctx.require("follow-up calls", c["follow-up-calls"], 30)
+    ctx.require("follow-up calls after the user replaced the library file under the same name",
+                c["follow-up after the user replaced the library file under the same name"], 3)
+    ctx.require("... of which rejection_sample / marginal_ln_likelihood", c["follow-up after the user replaced the library file under the same name:rejection"]
+                + c["follow-up after the user replaced the library file under the same name:marginal"], 2)
     ctx.require("follow-up calls on the same multi-process pool", c["follow-up-on-same-pool:multi"], 3)
     ctx.require("BaseException faults", c["exc:BaseException"], 5)
     ctx.require("multi-process configurations", sum(v for k, v in c.items() if k.startswith("config:") and k.endswith(":multi")), 2)
